@@ -4,7 +4,7 @@ From Coq Require Import List Bool Arith NArith ZArith String.
 From Coq.Strings Require Import Byte.
 From Verif.Base Require Import Bytes Outcome Str.
 From Verif.Model Require Import IE Codec Record SetB Msg Exporter.
-From Verif.Proofs Require Import SetB_lemmas Exporter_lemmas C08_lemmas.
+From Verif.Proofs Require Import SetB_lemmas Exporter_lemmas C08_lemmas C08_oracle.
 From Verif.Driver Require Import Show SetShow HistShow C08drv.
 Import ListNotations.
 Local Open Scope N_scope.
@@ -32,6 +32,17 @@ Print Assumptions C08_closed_form.
 Theorem C08_templates_do_not_count : forall s, s_type s = STemplate -> data_count s = 0.
 Proof. exact data_count_template. Qed.
 Print Assumptions C08_templates_do_not_count.
+
+(* The per-case oracle of the check (C08_holds_on, Driver/C08drv.v: for every call up to the
+   first failed one - reported count = bytes on the wire, version 10, length field = all bytes
+   of the call, sequence number = previous + data records mod 2^32, observation domain; final
+   counter = the predicted one) holds on the model's own observation of EVERY case: any
+   transport, start counter, sets built by any operations. No hypothesis is needed: the oracle
+   itself stops at the first failed attempt, as the statement does. The oracle is a function of
+   the structured observation (list sobs * fobs); show_hist / parse_hobs only print / read it. *)
+Theorem C08_oracle_on_model : forall c, C08_holds_on c (hist_model cur c) = true.
+Proof. exact c08_oracle_on_model. Qed.
+Print Assumptions C08_oracle_on_model.
 
 (* non-vacuity: a session that crosses the 2^32 wrap, all calls succeed, numbers as predicted *)
 Definition ex_u8 : ie := mkIE "x" 4 Unsigned8 0 1.
